@@ -93,7 +93,7 @@ def gen_plan(tape, cfg):
     ctx = bp.GenCtx(symbols, bv=True)
     kinds = [(5, "assert"), (2, "push"), (2, "pop"), (6, "solve"), (1, "reset")]
     for w, k in [(3, "get_model"), (3, "get_values"), (2, "is_sat"), (1, "is_valid"), (1, "is_unsat"),
-                 (1, "renew"), (1, "shortcut")]:
+                 (1, "renew"), (1, "shortcut"), (1, "gc")]:
         if tape.chance(3, 4, "enable." + k):
             kinds.append((w, k))
     n = tape.rint(3, 10, "nops")
@@ -398,8 +398,10 @@ def execute(plan, tape):
                     mdl = api("get_model", pf.get_model)
                 except Violation as v_:
                     if ":raised:" in v_.sig and _survivor_died():
+                        # no value from a survivor that died; the portfolio stays usable for the next query
                         probe("value_request_raised_after_survivor_died")
-                        return
+                        extra, sat_mode = [], False
+                        continue
                     raise
                 syms = {}
                 for f in live():
@@ -431,6 +433,7 @@ def execute(plan, tape):
                 for f in live():
                     bp.symbols_of(f, syms)
                 a = {}
+                died = False
                 for n in syms:
                     if n in known:
                         try:
@@ -438,13 +441,17 @@ def execute(plan, tape):
                         except Violation as v_:
                             if ":raised:" in v_.sig and _survivor_died():
                                 probe("value_request_raised_after_survivor_died")
-                                return
+                                died = True
+                                break
                             raise
                         if v not in mgr:
                             raise Violation("C19:value-foreign", "get_value returned a formula of another manager")
                         a[n] = v.constant_value()
                     else:
                         a[n] = bp.domain(syms[n])[0]
+                if died:
+                    extra, sat_mode = [], False
+                    continue
                 if any(n not in known for n in syms):
                     continue
                 for f in live():
@@ -452,6 +459,12 @@ def execute(plan, tape):
                         raise Violation("C19:values-unsat", "get_value()s after sat gave %s which falsifies %s" %
                                         (a, bp.pretty(f)))
                 probe("get_values_checked")
+            elif k == "gc":
+                # the garbage collector runs (in the parent): connection objects kept alive only by
+                # reference cycles (tracebacks of reported failures) are closed now
+                import gc as _gc
+                _gc.collect()
+                probe("gc_in_parent")
             elif k == "renew":
                 api("exit", pf.exit)
                 pf = new_portfolio()
